@@ -326,6 +326,28 @@ def _inert_lines(path: str) -> set[int]:
     return out
 
 
+def _function_sizes(path: str) -> dict[str, int]:
+    """qualified name -> number of statements in the function (docstrings and nested bodies included)."""
+    import ast
+
+    with open(path, encoding="utf-8") as f:
+        tree = ast.parse(f.read())
+    out: dict[str, int] = {}
+
+    def visit(node, qual):
+        for ch in ast.iter_child_nodes(node):
+            q = qual
+            if isinstance(ch, (ast.FunctionDef, ast.AsyncFunctionDef, ast.ClassDef)):
+                q = (qual + "." + ch.name) if qual else ch.name
+                if not isinstance(ch, ast.ClassDef):
+                    out[q] = sum(1 for x in ast.walk(ch) if isinstance(x, ast.stmt) and x is not ch
+                                 and not (isinstance(x, ast.Expr) and isinstance(x.value, ast.Constant)))
+            visit(ch, q)
+
+    visit(tree, "")
+    return out
+
+
 def _statement_keys(path: str, statements, missing) -> list[tuple[str, str, str]]:
     """Unexecuted statements inside functions of which this run executed at least one statement
     (code the run reaches but does not cover); functions the run never enters are other
@@ -369,10 +391,24 @@ class Exercise:
 
 
 def _anon(text: str) -> str:
+    """The shape of a statement: string literals, names and attribute chains rooted at a name
+    become one placeholder (the method name of a call is kept, numbers and keywords are kept):
+    a message moved into a parameter, a renamed local, `message.node_id` bound to `node_id`
+    leave the shape unchanged."""
     import keyword
     import re
 
-    return re.sub(r"(?<![\w.])[A-Za-z_]\w*", lambda m: m.group(0) if keyword.iskeyword(m.group(0)) else "_", text)
+    text = re.sub(r"""(?<![\w.])[fFrRbBuU]{0,2}("(?:\\.|[^"\\])*"|'(?:\\.|[^'\\])*')""", "_", text)
+
+    def chain(m):
+        parts = m.group(1).split(".")
+        if len(parts) == 1 and keyword.iskeyword(parts[0]):
+            return m.group(0)
+        if m.group(2) and len(parts) > 1:
+            return "_." + parts[-1] + "("
+        return "_" + (m.group(2) or "")
+
+    return re.sub(r"(?<![\w.])([A-Za-z_]\w*(?:\.[A-Za-z_]\w*)*)(\()?", chain, text)
 
 
 def exercise_gaps(pid: str, tier: str, ex: dict) -> list[str]:
@@ -406,8 +442,19 @@ def exercise_gaps(pid: str, tier: str, ex: dict) -> list[str]:
         for q, h in _function_hashes(f).items():
             if known.get(q) != h:
                 changed.add((rel, q))
+    # a function of which the runs on the pinned tree leave half or more unexecuted is not this
+    # property's to vouch for (C02 enters handle_set only as far as the missing-node guard): its
+    # unreached part is tied by the properties whose runs do go through it
+    sizes = base.get("__sizes__", {})
+    mine: dict[tuple[str, str], int] = {}
+    for k in base.get(pid, []):
+        mine[(k[0], k[1])] = mine.get((k[0], k[1]), 0) + 1
+    def in_scope(rel: str, q: str) -> bool:
+        n = sizes.get(rel, {}).get(q)
+        return not n or 2 * mine.get((rel, q), 0) < n
+
     return [f"{k[0]}: {k[1] or '<module>'}: {k[2]}" for k in ex["missing"]
-            if (k[0], _anon(k[2])) not in allowed and (k[0], k[1]) in changed]
+            if (k[0], _anon(k[2])) not in allowed and (k[0], k[1]) in changed and in_scope(k[0], k[1])]
 
 
 def main() -> int:
